@@ -24,7 +24,7 @@ git -C /repo worktree remove --force $W/wt; rm -rf $W
 # run checks against the change applied to /repo itself
 git -C /repo apply $OUT/patch.diff
 CAUGHT=""; DETAIL=""
-for p in C01 C02 C03 C04 C05 C06 C07 C08 C09 C10 C11 C12 C13 C14 C15 C16 C18 C19 C20; do
+for p in C01 C02 C03 C04 C05 C06 C07 C08 C09 C10 C11 C12 C13 C14 C15 C16 C17 C18 C19 C20; do
   GTSA_SELFTEST=1 python3 check.py --property $p --tier quick > /tmp/w/seed_$p.log 2>&1; rc=$?
   if [ $rc -eq 1 ]; then CAUGHT="$CAUGHT $p"; DETAIL="$DETAIL
 $p: $(grep -m1 '^REFUTED' /tmp/w/seed_$p.log | cut -c1-400)"; fi
